@@ -2,6 +2,7 @@ package ast
 
 import (
 	"fmt"
+	"strconv"
 	"strings"
 
 	"github.com/smarthome-go/homescript/v3/homescript/errors"
@@ -97,12 +98,13 @@ func (self AnalyzedFloatLiteralExpression) Kind() ExpressionKind {
 }
 func (self AnalyzedFloatLiteralExpression) Span() errors.Span { return self.Range }
 func (self AnalyzedFloatLiteralExpression) String() string {
-	// If the float can be replresented as an int without loss, the 'f' extension is forced.
-	if float64(int64(self.Value)) == self.Value {
-		return fmt.Sprintf("%df", int64(self.Value))
+	// The lexer knows no exponents: always use the positional notation.
+	// If the float has no fractional digits, the 'f' extension is forced.
+	str := strconv.FormatFloat(self.Value, 'f', -1, 64)
+	if !strings.Contains(str, ".") {
+		str += "f"
 	}
-
-	return fmt.Sprint(self.Value)
+	return str
 }
 func (self AnalyzedFloatLiteralExpression) Type() Type     { return NewFloatType(self.Range) }
 func (self AnalyzedFloatLiteralExpression) Constant() bool { return true }
